@@ -69,6 +69,39 @@ func generateAll(l *load.Loaded, c *synth.Case) (map[string]string, map[string]s
 	return hashes, texts
 }
 
+// secondPass: every target generated twice from ONE analysis (all targets, then all targets again):
+// a generator that leaves the analysis modified shows in the second pass
+func secondPass(l *load.Loaded, c *synth.Case) (target, file, first, second string) {
+	p := l.Pkgs[c.ID]
+	if p == nil {
+		return
+	}
+	a := &analysed{Case: c, Pkg: p, File: l.Mod.MainFile(c)}
+	a.Out = guard(func() { a.Ana = analysisNew(p, a.File) })
+	if a.Out.Class != "ok" {
+		return
+	}
+	firsts := map[string]map[string]string{}
+	for pass := 0; pass < 2; pass++ {
+		for _, tg := range allTargets {
+			t := runTarget(tg, a, l.Mod.Root)
+			if t.Out.Class != "ok" {
+				continue
+			}
+			if pass == 0 {
+				firsts[tg] = t.Text
+				continue
+			}
+			for f, txt := range t.Text {
+				if prev, ok := firsts[tg][f]; ok && prev != txt {
+					return tg, f, prev, txt
+				}
+			}
+		}
+	}
+	return
+}
+
 // c07Child: generate everything once in this process and print the hashes (one JSON line per case)
 func c07Child(args []string) error {
 	fs := flag.NewFlagSet("c07child", flag.ExitOnError)
@@ -103,7 +136,7 @@ func firstDiff(a, b string) string {
 }
 
 func runC07(r *rep.Report, thorough bool) error {
-	r.Rule = "every target generated K times in this process (fresh analysis each time), again after each of R fresh loads of the same sources in this process, and once in each of P separate processes, sha256 per output file and the set of file names compared; programs from the synthesiser (general + sql-flavoured) plus hand-written programs whose types come from three and more packages, so that map iteration orders actually differ. non-trivial = program references at least two imported packages"
+	r.Rule = "every target generated twice from one analysis (all targets, then all again), K times in this process (fresh analysis each time), again after each of R fresh loads of the same sources in this process, and once in each of P separate processes, sha256 per output file and the set of file names compared; programs from the synthesiser (general + sql-flavoured) plus hand-written programs whose types come from three and more packages, so that map iteration orders actually differ. non-trivial = program references at least two imported packages"
 	K, P := 8, 3
 	if thorough {
 		K, P = 40, 8
@@ -125,6 +158,10 @@ func runC07(r *rep.Report, thorough bool) error {
 			}
 		}
 		r.Case(map[string]any{"case": c.ID, "features": c.Feat}, nontrivial)
+		if tg, f, first, second := secondPass(l, c); tg != "" {
+			r.Fail(rep.Failure{Signature: "c07:output-depends-on-earlier-generations:" + tg, What: "generating every target twice from one analysis gives a different " + tg + "/" + f + " the second time (" + firstDiff(first, second) + "): a generator leaves the analysis modified",
+				Input: map[string]any{"case": c.ID, "output": tg + "/" + f, "sources": c.Sources()}, Expected: first, Observed: second})
+		}
 		reported := map[string]bool{}
 		for k := 1; k < K; k++ {
 			again, texts := generateAll(l, c)
